@@ -314,7 +314,7 @@ def rule_line_start_indent(rep: Report, repo: Repo, rule: str) -> None:
                       witness="multi-line paragraph / field / list inside a nested directive")
         if n == 0:
             raise AnalysisError(f"{cname}.{builder} never stores {field}")
-    rep.floor(rule, 6, "element templates")
+    rep.floor(rule, len(ELEMENTS), "element templates")
 
 
 def _indent_term(repo: Repo, cname: str, indent_attr: str):
